@@ -105,7 +105,7 @@ func (r *run) conclude(ld *loaded, files []harnessFile, results []*interp.Harnes
 				// reproduces against the real build; classify by the signatures evaluated natively
 				knownID := ""
 				for _, f := range n.Findings {
-					if r.cfg.KnownStatus[f] == "known" {
+					if r.cfg.KnownStatus[f] == "known" && (knownID == "" || f == c.vio.Finding) {
 						knownID = f
 					}
 				}
